@@ -1,6 +1,6 @@
 (* Entry points for C20 (exports): model functions behind val -> val wrappers. *)
 From CNV Require Import Base.Prelude Base.Val Base.Str Model.Call Model.Export.
-From CNV Require Spec.Call Spec.Export.
+From CNV Require Spec.Call Spec.Export Model.Vcf Model.VBaf.
 
 Definition c20_getSeg (v : val) : option seg :=
   match v with
@@ -270,4 +270,152 @@ Definition e_c20_nexus (v : val) : val :=
                  let '(c, lo, hi, g, lv, p) := r in VL [VS c; VZ lo; VZ hi; VS g; VQ (Qred lv); VS p])
               (export_nexus_basic bins))
   | None => bad_input
+  end.
+
+(* ---- VCF text layer ------------------------------------------------------------------------ *)
+
+(* [cfg; sample_id|None; table sample id; rows; bins|None; tokens [[2**log2 text; log2 text] per record]; date; version]
+   -> [header lines; body lines (column line first) | error] *)
+Definition e_c20_vcf_text (v : val) : val :=
+  match v with
+  | VL [c; sid; tid; rows; bins; toks; date; version] =>
+      match c20_getCfg c, getOpt getS sid, getS tid, getList c20_getSeg rows, getOpt (getList c20_getRegion) bins with
+      | Some c, Some sid, Some tid, Some rows, Some bins =>
+          match getList (getPair getS getS) toks, getS date, getS version with
+          | Some toks, Some date, Some version =>
+              VL [vStrs (vcf_header_lines date version);
+                  match export_vcf_text c sid tid rows bins toks with
+                  | TextAssert => VErr "AssertionError"
+                  | TextShape => VErr "ValueError"
+                  | TextOk body => vStrs body
+                  end]
+          | _, _, _ => bad_input
+          end
+      | _, _, _, _, _ => bad_input
+      end
+  | _ => bad_input
+  end.
+
+(* [bins; rows] -> the specification's (CIPOS, CIEND) of every row (Spec.Export.sp_ci) *)
+Definition e_c20_spec_ci (v : val) : val :=
+  match v with
+  | VL [bins; rows] =>
+      match getList c20_getRegion bins, getList c20_getSeg rows with
+      | Some bins, Some rows =>
+          VL (map (fun i => vCi (Spec.Export.sp_ci bins rows i)) (seq 0 (length rows)))
+      | _, _ => bad_input
+      end
+  | _ => bad_input
+  end.
+
+(* ---- nexus-ogt ------------------------------------------------------------------------------- *)
+
+Definition c20_getObin (v : val) : option obin :=
+  match v with
+  | VL [c; lo; hi; lv; w] =>
+      match getS c, getZ lo, getZ hi, getQ lv, getOpt getQ w with
+      | Some c, Some lo, Some hi, Some lv, Some w => Some (mkObin c lo hi lv w)
+      | _, _, _, _, _ => None
+      end
+  | _ => None
+  end.
+
+(* a variant as baf_by_ranges sees it: [label; chrom; start; end; zygosity; alt_freq|None; n_zygosity|None] *)
+Definition c20_getVariant (v : val) : option VBaf.lrow :=
+  match v with
+  | VL [lab; c; lo; hi; z; f; nz] =>
+      match getZ lab, getS c, getZ lo, getZ hi, getQ z, getOpt getQ f, getOpt getQ nz with
+      | Some lab, Some c, Some lo, Some hi, Some z, Some f, Some nz =>
+          let g (zy : Q) (fr : Vcf.xq) := {| Vcf.g_zyg := zy; Vcf.g_depth := 0; Vcf.g_count := 0; Vcf.g_freq := fr |} in
+          Some (lab, {| Vcf.v_chrom := c; Vcf.v_ckey := 0; Vcf.v_start := lo; Vcf.v_end := hi;
+                        Vcf.v_ref := EmptyString; Vcf.v_alt := EmptyString; Vcf.v_somatic := false;
+                        Vcf.v_t := g z (match f with Some q => Vcf.Fin q | None => Vcf.XNaN end);
+                        Vcf.v_n := option_map (fun zy => g zy Vcf.XNaN) nz |})
+      | _, _, _, _, _, _, _ => None
+      end
+  | _ => None
+  end.
+
+Definition vXq20 (x : Vcf.xq) : val :=
+  match x with Vcf.Fin q => VQ (Qred q) | Vcf.PInf => VS "inf" | Vcf.XNaN => VNone end.
+
+(* [paired; variants; min_weight; has_weight; bins] -> rows [chrom; start; end; log2; baf|None] | TypeError (no bin left);
+   second component: the specification's keep mask *)
+Definition e_c20_nexus_ogt (v : val) : val :=
+  match v with
+  | VL [paired; vars; mw; hw; bins] =>
+      match getB paired, getList c20_getVariant vars, getQ mw, getB hw, getList c20_getObin bins with
+      | Some paired, Some vars, Some mw, Some hw, Some bins =>
+          VL [match export_nexus_ogt paired vars mw hw bins with
+              | Some out => VL (map (fun r : ogt_row =>
+                                      let '(c, lo, hi, lv, f) := r in VL [VS c; VZ lo; VZ hi; VQ (Qred lv); vXq20 f]) out)
+              | None => VErr "TypeError"
+              end;
+              VL (map (fun b => VB (Spec.Export.sp_ogt_keeps mw hw b)) bins)]
+      | _, _, _, _, _ => bad_input
+      end
+  | _ => bad_input
+  end.
+
+(* ---- THetA ----------------------------------------------------------------------------------- *)
+
+Definition c20_getTseg (v : val) : option tseg :=
+  match v with
+  | VL [c; lo; hi; e; p; w] =>
+      match getS c, getZ lo, getZ hi, getQ e, getZ p, getQ w with
+      | Some c, Some lo, Some hi, Some e, Some p, Some w => Some (mkTseg c lo hi e p w)
+      | _, _, _, _, _, _ => None
+      end
+  | _ => None
+  end.
+
+Definition c20_getNbin (v : val) : option nbin :=
+  match v with
+  | VL [c; lo; hi; lv] =>
+      match getS c, getZ lo, getZ hi, getQ lv with
+      | Some c, Some lo, Some hi, Some lv => Some (c, lo, hi, lv)
+      | _, _, _, _ => None
+      end
+  | _ => None
+  end.
+
+(* the exact values behind the counts: [tumor values; normal values (None = NaN); reference means; nbins] *)
+Definition c20_theta_values (hp hw : bool) (rows : list tseg) (normal : option (list nbin)) (en : list Q) : val :=
+  let segs := theta_autosomes t_chrom rows in
+  match normal with
+  | Some ((_ :: _) as nb) =>
+      let nbins := map (fun s => inject_Z (t_probes s)) segs in
+      let means := theta_ref_means (theta_autosomes nb_chrom nb) segs in
+      VL [VL (map2 (fun s n => VQ (theta_value (t_e s) n)) segs nbins);
+          VL (map3 (fun (m : option Q) e n => match m with Some _ => VQ (theta_value e n) | None => VNone end) means en nbins);
+          VL (map vOptQ means); vListQ nbins]
+  | _ =>
+      let nbins := theta_nbins hp hw segs in
+      VL [VL (map2 (fun s n => VQ (theta_value (t_e s) n)) segs nbins);
+          VL (map (fun n => VQ (theta_value theta_neutral_ratio n)) nbins);
+          VL (map (fun _ => VQ 0) segs); vListQ nbins]
+  end.
+
+(* [has probes; has weight; rows [chrom; start; end; 2^log2; probes; weight]; normal bins [chrom; start; end; log2] | None;
+    2^ref_mean per kept row]
+   -> "empty" | AttributeError | [rows [#ID; chrm; start; end; tumorCount; normalCount]; exact values; spec keys of the kept rows] *)
+Definition e_c20_theta (v : val) : val :=
+  match v with
+  | VL [hp; hw; rows; normal; en] =>
+      match getB hp, getB hw, getList c20_getTseg rows, getOpt (getList c20_getNbin) normal, getList getQ en with
+      | Some hp, Some hw, Some rows, Some normal, Some en =>
+          match export_theta hp hw rows normal en with
+          | ThetaEmpty => VS "empty"
+          | ThetaAttr => VErr "AttributeError"
+          | ThetaOk out =>
+              VL [VL (map (fun r : theta_row =>
+                             let '(id, ch, lo, hi, t, n) := r in VL [VS id; VZ ch; VZ lo; VZ hi; VZ t; VZ n]) out);
+                  c20_theta_values hp hw rows normal en;
+                  let kept := Spec.Export.sp_theta_kept rows in
+                  VL (map (fun s => let '(id, ch, lo, hi) := Spec.Export.sp_theta_key kept s in
+                                    VL [VS id; VZ ch; VZ lo; VZ hi]) kept)]
+          end
+      | _, _, _, _, _ => bad_input
+      end
+  | _ => bad_input
   end.
